@@ -1,0 +1,37 @@
+//go:build verif
+
+// Contracts for govc (see /verif/DESIGN.md). Comment-only: compiled only with -tags verif.
+package meta
+
+// ---- per-search state recycling (C13, C10, C06) ----
+
+//@ func (*SearchState).reset
+//@   props C13 C07
+//@   requires s != nil
+//@   modifies s.backtracker.InputLen, s.backtracker.Longest, s.onepassSlots[*]
+//@   ensures s.backtracker != nil ==> s.backtracker.InputLen == 0 && !s.backtracker.Longest
+//@   ensures forall i :: 0 <= i && i < len(s.onepassSlots) ==> s.onepassSlots[i] == -1
+//@   loop 1: invariant -1 <= rangeindex && rangeindex <= rangelen && rangelen == len(s.onepassSlots)
+//@   loop 1: invariant forall i :: 0 <= i && i <= rangeindex ==> s.onepassSlots[i] == -1
+//@   loop 1: invariant s.backtracker != nil ==> s.backtracker.InputLen == 0 && !s.backtracker.Longest
+//@   loop 1: decreases rangelen - rangeindex
+
+// the pool's New function is newSearchState, which never returns nil (ASSUMED for sync.Pool.Get + type assertion)
+//@ trusted func (*searchStatePool).get
+//@   requires p != nil
+//@   ensures result != nil
+
+//@ trusted func (*searchStatePool).put
+//@   modifies family H:nfa.BacktrackerState.InputLen, family H:nfa.BacktrackerState.Longest, family E:int
+
+//@ func (*Engine).getSearchState
+//@   props C13 C10 C07
+//@   requires e != nil && e.statePool != nil
+//@   modifies e.localState, family H:nfa.BacktrackerState.Longest, family H:nfa.PikeVM
+//@   ensures result != nil
+//@   ensures (e.boundedBacktracker != nil && result.backtracker != nil) ==> result.backtracker.Longest == e.longest
+
+//@ func (*Engine).putSearchState
+//@   props C13 C07
+//@   requires e != nil && e.statePool != nil
+//@   modifies e.localState, family H:nfa.BacktrackerState.InputLen, family H:nfa.BacktrackerState.Longest, family E:int
